@@ -155,7 +155,7 @@ Section Gc.
   Lemma relevant_alive e scene t :
     relevant c scene (epoch_of e scene + 1) t = true -> expired c e t = false /\ t_scene t = scene.
   Proof.
-    unfold relevant, expired. intro H. apply andb_prop in H. destruct H as [H1 H2]. apply N.eqb_eq in H1.
+    rewrite expired_ltb. unfold relevant. intro H. apply andb_prop in H. destruct H as [H1 H2]. apply N.eqb_eq in H1.
     split; [|exact H1]. apply N.ltb_ge. rewrite H1. apply N.leb_le in H2. unfold absdiff in H2.
     destruct (epoch_of e scene + 1 <=? t_last t) eqn:E; [apply N.leb_le in E; lia|apply N.leb_gt in E; lia].
   Qed.
@@ -174,11 +174,11 @@ Section Gc.
 
     Lemma good_absorb d t : good t -> good (absorb c epoch d t).
     Proof.
-      intros [H1 H2]. split; [exact H1|]. unfold expired. cbn [absorb t_last t_scene]. rewrite H1. apply N.ltb_ge. unfold epoch. lia.
+      intros [H1 H2]. split; [exact H1|]. rewrite expired_ltb. cbn [absorb t_last t_scene]. rewrite H1. apply N.ltb_ge. unfold epoch. lia.
     Qed.
 
     Lemma good_fresh id d : good (fresh_track c id scene epoch d).
-    Proof. split; [reflexivity|]. unfold expired. cbn [fresh_track t_last t_scene]. apply N.ltb_ge. unfold epoch. lia. Qed.
+    Proof. split; [reflexivity|]. rewrite expired_ltb. cbn [fresh_track t_last t_scene]. apply N.ltb_ge. unfold epoch. lia. Qed.
 
     Lemma apply_one_rel a d w :
       (forall t, In t (live a) -> t_id t <= next_id a) ->
